@@ -15,7 +15,7 @@ RULE = ("cells = physical_dim x N x bc x order x dx (full product inside the bou
         "with a dense index-formula reference; a cell is non-trivial when the operator was constructed "
         "(not refused) and has at least one off-diagonal stencil entry or a prior was evaluated")
 BOUND = {"quick": "1-D N=2..9, 2-D NxN N=2..4, bc in {zero,periodic,neumann,backward,none}, order 0..2, dx in {1,0.5}",
-         "thorough": "1-D N=2..16, 2-D NxN N=2..6, same options, 3 point catalogues per cell"}
+         "thorough": "1-D N=2..40, 2-D NxN N=2..9, same options, 3 generic points per cell"}
 ASSUMPTIONS = [
     "the 'backward' boundary rows are undocumented: rows are compared up to a per-row sign, D^T D exactly",
     "periodic stencils wider than the grid (order 2, N=2) are outside the documented range and skipped",
@@ -27,8 +27,8 @@ BCS = ["zero", "periodic", "neumann", "backward", "none"]
 
 
 def cells(tier, seed):
-    n1 = range(2, 10) if tier == "quick" else range(2, 17)
-    n2 = range(2, 5) if tier == "quick" else range(2, 7)
+    n1 = range(2, 10) if tier == "quick" else range(2, 41)
+    n2 = range(2, 5) if tier == "quick" else range(2, 10)
     for pd, rng in ((1, n1), (2, n2)):
         for N in rng:
             for bc in BCS:
@@ -80,6 +80,7 @@ def eval_cell(cell):
         if op is not None and Dref is not None:
             res.state("op")
             res.evaluations += 1
+            res.traces += 1
             if D.shape != Dref.shape:
                 res.fail("C20|%s|matrix-shape|%s" % (name, facet), "shape %s != reference %s" % (D.shape, Dref.shape))
             else:
@@ -108,6 +109,7 @@ def eval_cell(cell):
                 I = np.eye(N)
                 K = np.vstack([np.kron(I, D1), np.kron(D1, I)])
                 res.evaluations += 1
+                res.traces += 1
                 if K.shape != D.shape or not close(K, D, 1e-12):
                     res.fail("C20|%s|kron|%s" % (name, facet), "2-D operator is not [I(x)D ; D(x)I] of the 1-D operator")
     if order == 2 and bc in ("backward", "none"):
@@ -134,6 +136,7 @@ def eval_cell(cell):
     if pop is not None:
         res.state("prec")
         res.evaluations += 1
+        res.traces += 1
         res.transitions += dim
         if P.shape != Pref.shape or not close(P, Pref, 1e-12):
             res.fail("C20|PrecisionFiniteDifference|matrix|%s" % facet, "precision != D^T D of documented stencil", impl=P, ref=Pref)
@@ -213,6 +216,7 @@ def _check_gmrf(res, cell, facet, Pref, ld_ref, rank_ref, pts, loc):
             refq.append(-0.5 * prec * float(r @ Pref @ r))
         vals, refq = np.array(vals), np.array(refq)
         res.evaluations += 1
+        res.traces += 1
         if not np.all(np.isfinite(vals)) and not np.isfinite(g._logdet):
             res.fail("C20|GMRF|rank-logdet|%s" % facet, "reported logdet %r makes every logpdf non-finite (precision has "
                      "pseudo-log-determinant %r)" % (g._logdet, ld_ref))
@@ -279,4 +283,5 @@ def _check_lmrf_cmrf(res, cell, facet, Dref, pts, loc):
                              "logpdf %r != sum of documented %s log-densities of D(x-loc) = %r" % (v, fam[0], ref), x=x)
                     break
             res.evaluations += 1
+            res.traces += 1
             res.outcomes.add("%s:%s" % (fam, loc_kind))
